@@ -30,9 +30,10 @@ def parseIdent (flavor s : String) : Option (Option Nat) :=
     | "A" => some (some 0) | "B" => some (some 1) | "C" => some (some 2)
     | _ => some none
   else
-    -- ShardIndex: `s.parse::<u32>()`
-    match s.toNat? with
-    | some n => if n < 4294967296 && s.all Char.isDigit then some (some n) else some none
+    -- ShardIndex: `s.parse::<u32>()` (decimal digits, one optional leading `+`, leading zeros allowed)
+    let d : String := if s.startsWith "+" then (s.drop 1).toString else s
+    match d.toNat? with
+    | some n => if n < 4294967296 && d.all Char.isDigit then some (some n) else some none
     | none => some none
 
 def showDerived : Derived Nat → String
@@ -40,8 +41,39 @@ def showDerived : Derived Nat → String
   | .ext (some i) => s!"ext:{i}"
   | .rejected => "rejected"
 
+def showLive : LiveResp → String
+  | .connErr => "conn-err"
+  | .rejected => "other:400"        -- `Error::InvalidHeader` → `StatusCode::BAD_REQUEST`
+  | .resp .unauthorized => "401"
+  | .resp .notFound => "other:404"
+  | .resp .methodNotAllowed => "other:405"
+  | .resp (.handled _) => "ok"      -- the suite sends well-formed requests to a stub request handler
+
+/-- `none | h=<v> | s=<v>` → the identity header of the server's own flavor (a header of the other
+flavor is never read) -/
+def parseLiveHeader (server hdr : String) : Option (Option (Option Nat)) :=
+  if hdr == "none" then some none
+  else if hdr.startsWith "h=" then
+    (if server == "mpc" then (parseIdent "helper" (hdr.drop 2).toString).map some else some none)
+  else if hdr.startsWith "s=" then
+    (if server == "shard" then (parseIdent "shard" (hdr.drop 2).toString).map some else some none)
+  else none
+
+def parseLiveCert (cert : String) : Option (ClientCert Nat) :=
+  if cert == "none" then some .none
+  else if cert == "x" then some .stranger
+  else cert.toNat?.map .peer
+
 def handle (toks : List String) : Option String :=
   match toks with
+  | ["c20.live", server, proto, bind, _group, m, target, cert, hdr, _body] => some <| (do
+      let routes ← tableOf server
+      let tls ← if proto == "tls" then some true else if proto == "plain" then some false else none
+      let pre ← if bind == "pre" then some true else if bind == "self" then some false else none
+      let arm ← armFor (!tls) pre
+      let c : Client Nat := { tls := tls, cert := (← parseLiveCert cert), header := (← parseLiveHeader server hdr) }
+      let f : Flavor := if server == "mpc" then .helper else .shard
+      pure (showLive (serve f routes arm c (segments target) (← parseMethod m)))).getD "bad-request"
   | ["c20.req", server, _group, m, target, ident, _body] => some <| (do
       let routes ← tableOf server
       let r : Req := { path := segments target, method := (← parseMethod m),
@@ -58,8 +90,55 @@ def handle (toks : List String) : Option String :=
 /-! Spec-side oracle: a route mounted by `h2h_router` / `s2s_router` must answer 401 to a request
 without the matching peer identity; collector routes must not answer 401; under TLS the header is
 ignored; without TLS only the header counts. -/
+def validIdentString (server v : String) : Bool :=
+  if server == "mpc" then v == "A" || v == "B" || v == "C"
+  else
+    -- what `u32::from_str` accepts
+    let d : String := if v.startsWith "+" then (v.drop 1).toString else v
+    d.length > 0 && d.all Char.isDigit && (d.toNat?.getD 4294967296) < 4294967296
+
 def oracle (toks : List String) (impl : String) : Option String :=
   match toks with
+  | ["c20.live", server, proto, bind, group, _m, target, cert, hdr, _body] => some <|
+      let protected_ := group == "h2h" || group == "s2s"
+      let ownPrefix := if server == "mpc" then "h=" else "s="
+      let ownHdr : Option String := if hdr.startsWith ownPrefix then some (hdr.drop 2).toString else none
+      let arm := s!"{proto}/{bind}-bound"
+      if proto == "tls" then
+        -- under TLS the answer is a function of the certificate only
+        if cert == "x" then
+          (if impl == "conn-err" || impl == "401" || !protected_ then "holds"
+           else s!"fails {arm}: {target} answered {impl} to a certificate that belongs to no peer")
+        else if cert == "none" then
+          if protected_ then
+            (if impl == "401" then "holds"
+             else s!"fails {arm}: {group} route {target} answered {impl} over TLS WITHOUT a client certificate (identity header {hdr})")
+          else
+            (if impl == "401" then s!"fails {arm}: report-collector route {target} requires a peer identity"
+             else if impl == "conn-err" then s!"fails {arm}: report-collector route {target} unreachable without a client certificate"
+             else if impl == "other:400" && hdr != "none" then s!"fails {arm}: identity header {hdr} has an effect under TLS ({impl})"
+             else "holds")
+        else
+          (if impl == "401" && protected_ then s!"fails {arm}: peer with certificate {cert} refused on {target}"
+           else if impl == "401" then s!"fails {arm}: report-collector route {target} requires a peer identity"
+           else if impl == "conn-err" then s!"fails {arm}: peer certificate {cert} not accepted"
+           else if impl == "other:400" && hdr != "none" then s!"fails {arm}: identity header {hdr} has an effect under TLS ({impl})"
+           else "holds")
+      else if cert != "none" then "unknown"
+      else if !protected_ then
+        (if impl == "401" then s!"fails {arm}: report-collector route {target} requires a peer identity"
+         else if impl == "conn-err" then s!"fails {arm}: no response"
+         else "holds")
+      else match ownHdr with
+        | none =>
+          (if impl == "401" then "holds"
+           else s!"fails {arm}: {group} route {target} answered {impl} without an identity header of its flavor (header {hdr})")
+        | some v =>
+          if validIdentString server v then
+            (if impl == "401" || impl == "conn-err" then s!"fails {arm}: header identity {v} ignored although TLS is disabled ({impl})" else "holds")
+          else
+            (if impl == "401" || impl == "other:400" then "holds"
+             else s!"fails {arm}: malformed identity header {v} accepted on {target} ({impl})")
   | ["c20.req", server, group, _m, _target, ident, _body] => some <|
       let hasHelper := ident == "helper" || ident == "both"
       let hasShard := ident == "shard" || ident == "both"
